@@ -190,6 +190,8 @@ def mutate(r, g, insts, per_class=2):
             key = c[0] + " " + c[1]
         if " := " in c[1] and c[0] in ("wrong_kind", "wrong_kind_element", "undeclared_enum_item", "dangling_reference", "select_outside_list"):
             key = c[0] + " " + c[1].split(" (", 1)[1]        # "<kind>) := <bad value>", optional and required apart
+        if c[0] in ("too_few_params", "too_many_params") and c[1].split(":")[0] in ("DCARRIER", "LCARRIER", "SI_B", "DPOINT"):
+            key = c[0] + " " + c[1].split(":")[0]                # classes with redefining or derived attributes: own path through the attribute loop
         if c[1].startswith("complex part"):
             key = c[0] + " " + c[1]                              # each fault inside an externally mapped instance is its own class
         if c[0] == "ill_typed_reference":
@@ -345,6 +347,30 @@ def main(tier, seed):
             hs = {}
             for h in hooks:
                 hs.setdefault(int(h[1]), ("S" if h[0] == "VERIF-INST" else "C") + h[2])
+            # the attribute loop (coq/RecRead.v record_sev): severity of every simple record all of whose values are good, from
+            # the number of its parameters and the places of the redefining attributes of its class alone
+            if cls in ("too_few_params", "too_many_params"):
+                for mi_ in [x_ for x_ in minsts if x_["id"] == faulty]:
+                    if mi_["complex"] or mi_.get("dup") or mi_.get("noterm"):
+                        continue
+                    ent_ = mi_["parts"][0][0] if mi_["toks"][0] == mi_["parts"][0][0] else None
+                    if ent_ is None or ent_ not in popgen.ENTITIES:
+                        continue
+                    if mi_["id"] == faulty and cls not in ("too_few_params", "too_many_params"):
+                        continue            # its values are not all good
+                    nexp = len(popgen.all_attrs(ent_))
+                    flags = REDEF_FLAGS.get(ent_, "0" * nexp)
+                    kpar = 0 if mi_["toks"][1:] == ["(", ")"] else len(top_level_split(mi_["toks"]))
+                    got_ = hs.get(mi_["id"])
+                    if got_ is None or not got_.startswith("S"):
+                        continue
+                    mr = run_model(["R %s %d" % (flags or "-", kpar)])[0].split()
+                    class_hist["record_loop_compared"] = class_hist.get("record_loop_compared", 0) + 1
+                    if len(mr) < 2 or int(mr[1]) != int(got_[1:]):
+                        disagreements += 1
+                        res.violation("model record_sev and SDAI_Application_instance::STEPread disagree on #%d %s with %d parameters (%s): reader %s, model %s" % (
+                                      mi_["id"], ent_, kpar, cls, got_[1:], mr[1:2]),
+                                      {"theorem_or_correspondence": "correspondence C03: coq/RecRead.v record_sev vs sdaiApplication_instance.cc STEPread"}, found_input=False)
             if not swallow and cls != "duplicate_id":
                 os_ = [hs.get(i["id"], "N") for i in minsts]
                 m = run_model(["F 3 1 " + " ".join(os_)])[0].split()
@@ -376,6 +402,10 @@ def main(tier, seed):
     res.assumptions = ["for unterminated instance/string only the instances before the fault are required to survive",
                        "instances referencing the faulty instance are exempt from the confinement comparison"]
     return res.finish()
+
+
+# which attributes of a class are redefining ones (they take no parameter), in the order of the instance's attribute list
+REDEF_FLAGS = {"DCARRIER": "0010", "LCARRIER": "001"}
 
 
 def sig_of(cls, desc, bad):
